@@ -68,6 +68,13 @@ func negSet(c *cx, id string) []*eng.Fn {
 
 func runC04(p *eng.Prog, r *eng.Report, tier string) {
 	c := &cx{p, r, tier}
+	// C04.15 no (nil, nil): what establishes a session (dialers, transport
+	// upgrades, the session constructors and what they call) reports a nil
+	// connection / session only together with an error (F130)
+	r.Floor("C04.15", "returns of a local (T, error) pair examined", noNilNil(c, "C04.15", func(f *eng.Fn) bool {
+		// xml.TokenReader documents (nil, nil) as a permitted result
+		return eng.TypeStr(f.Sig().Results().At(0).Type()) != "encoding/xml.Token"
+	}), 1)
 	neg := negSet(c, "C04.1")
 	var names []string
 	for _, f := range neg {
